@@ -441,6 +441,23 @@ func RunFamily(f *Family, tier string) int {
 	return 0
 }
 
+// vacuity: every named action of a state-machine specification must have generated at least one state somewhere
+// in the configurations of this run (TLC -coverage); an action never enabled means the properties were never
+// exercised on it. Reported as inconclusive (exit 2), never as a verdict.
+func vacuity(prop string, acts map[string][2]int64, ignore ...string) (map[string]any, error) {
+	out := map[string]any{}
+	for k, v := range acts {
+		out[k] = map[string]int64{"distinct": v[0], "generated": v[1]}
+	}
+	if len(acts) == 0 {
+		return out, fmt.Errorf("TLC printed no coverage statistics")
+	}
+	if nt := tlc.NeverTaken(acts, ignore...); len(nt) > 0 {
+		return out, fmt.Errorf("vacuous: the specification's actions %v were never taken in any configuration of this run", nt)
+	}
+	return out, nil
+}
+
 // memlog prints the live heap at a phase boundary when VERIF_MEMLOG is set (development aid).
 func memlog(tag string) {
 	if os.Getenv("VERIF_MEMLOG") == "" {
